@@ -76,10 +76,10 @@ func (w *World) parseTwice(memo string) ParseObs {
 	if e1 != nil {
 		o.Err = e1.Error()
 	}
+	// equal results: both parses accept with equal payloads, or both refuse. (The TEXT of a refusal is
+	// not compared: the JSON codec names an arbitrary one of several unknown fields; since fix ebf3465
+	// no error text reaches committed state, and the determinism of what IS committed is C19's.)
 	o.Pure = (e1 == nil) == (e2 == nil)
-	if e1 != nil && e2 != nil {
-		o.Pure = e1.Error() == e2.Error()
-	}
 	if e1 == nil && e2 == nil {
 		o.Pure = protoEq(p1, p2)
 	}
